@@ -169,6 +169,9 @@ class Ctx:
                 sys.stdin = f
             return f
         stdin_swap = []
+        # the URL that accompanies a stream is the caller's: now and then it
+        # carries a fragment identifier (legal there; it names the stream)
+        furl = top + "#production" if p.get("rot", 0) % 7 == 3 else top
         if p["kind"] == "config" and self.loader is not None:
             loader = self.loader
             if name == "wrapper":
@@ -178,7 +181,7 @@ class Ctx:
             elif entry == "path":
                 fn = lambda: loader.loadURL(_path_of(top))          # noqa
             else:
-                fn = lambda: loader.loadFile(fobj(), top)           # noqa
+                fn = lambda: loader.loadFile(fobj(), furl)          # noqa
             o = ops.config_outcome(fn)
         elif p["kind"] == "config":
             schema = self.schema
@@ -190,7 +193,7 @@ class Ctx:
                     schema, _path_of(top), ov)
             else:
                 fn = lambda: ZConfig.loadConfigFile(                # noqa
-                    schema, fobj(), top, ov)
+                    schema, fobj(), furl, ov)
             o = ops.config_outcome(fn)
         else:
             loader = self.loader
@@ -202,7 +205,7 @@ class Ctx:
                 # a schema may be handed over as a binary stream (the XML
                 # reader decodes it); half of the scenarios do
                 fn = lambda: loader.loadFile(                       # noqa
-                    fobj(binary=p.get("rot", 0) % 2 == 1), top)
+                    fobj(binary=p.get("rot", 0) % 2 == 1), furl)
             o = ops.schema_outcome(fn)
             o.pop("schema", None)
         if stdin_swap:
@@ -297,6 +300,12 @@ def failure_points(plan, recon):
                     ("abort",) if (k + rot) % 3 == 0 else ()):
                 pts.append({"faults": [{"seam": seam, "at": k,
                                         "kind": "%s-%s" % (seam, kind)}]})
+    for name in sorted(plan["packages"]):
+        if plan["packages"][name].get("datatypes"):
+            # the module that holds a component's datatypes cannot be
+            # imported (by name: the look-up happens once per schema object,
+            # so the failing load is the FIRST one of a fresh schema object)
+            pts.append({"pkgfault": {name: "pkg-import-error"}})
     if plan["kind"] == "config":
         kinds = ["syntax-line", "bad-value", "unknown-key",
                  "missing-required", "unknown-section-type",
@@ -345,6 +354,8 @@ def apply_point(plan, store, pt):
     """Returns (store', faults, kind label)."""
     if "faults" in pt:
         return store, pt["faults"], pt["faults"][0]["kind"]
+    if "pkgfault" in pt:
+        return store, [], "pkg-import-error:datatype-module"
     if "inj" in pt:
         res = TF.apply(TF.res_texts(plan["uni"]), pt["inj"])
         st = dict(store)
@@ -466,9 +477,17 @@ def execute(plan):
             if not pt.get("faults") and len(pt) == 1 and "faults" in pt:
                 continue
             store, faults, label = apply_point(plan, store0, pt)
+            if "pkgfault" in pt:
+                # a schema object (and a process) that has not imported the
+                # module yet
+                w.purge_packages()
+                if not ctx.setup():
+                    continue
+                w.pkg_faults = dict(pt["pkgfault"])
             ctx.fresh_loader()
             t0 = len(w.trace)
             o, problems, rec = ctx.run(store, faults, "faulty")
+            w.pkg_faults = {}
             # fault SEQUENCES: for a third of the failure points a second
             # load with another failure point follows on the same loader /
             # schema object before the fault-free rerun (clean-up that works
